@@ -26,7 +26,7 @@ ASSUMPTIONS = [
     "an un-instrumented function is plain Python (a bare annotation is a no-op there) and is not part of the space",
 ]
 BOUNDS = {"quick": {"program_size": 3}, "thorough": {"program_size": 4}}
-CHUNK = 20
+CHUNK = 8
 MENU = frozenset({"assign", "declare", "declare-use", "declare-tagged", "undef-read", "late-read", "if", "if-else",
                   "for", "try-except", "try-nameerror", "return", "raise"})
 SPECIAL = frozenset({"declare", "declare-use", "declare-tagged", "undef-read", "late-read"})
